@@ -177,6 +177,13 @@ Definition text_at (lines : list str) (g : seg) (w : str) : bool :=
                    end
   end.
 
+(** the position (line, UTF-16 column) reached after writing [t] from position [lc]: a line feed starts
+    a new line, any other character advances the column by its UTF-16 length *)
+Definition pos_step (lc : N * N) (ch : N) : N * N :=
+  if ch =? 10 then (fst lc + 1, 0) else (fst lc, snd lc + (if ch <? 65536 then 1 else 2)).
+Definition end_pos_from (lc : N * N) (t : str) : N * N := fold_left pos_step t lc.
+Definition end_pos (t : str) : N * N := end_pos_from (0, 0) t.
+
 (** source index and name index refer to existing entries *)
 Definition seg_refs_ok (nsources nnames : N) (g : seg) : bool :=
   match g_orig g with
